@@ -191,3 +191,45 @@ def mesh(param):
     y = param['ymin'] + np.arange(param['Ny']) * param['dy']
     z = param['zmin'] + np.arange(param['Nz']) * param['dz']
     return np.meshgrid(x, y, z, indexing='ij')
+
+
+def test_fields(seed=0):
+    """Smooth periodic test fields with all components distinct:
+    returns functions of (t,x,y,z,m): scalar, vec3 (3), vec4 (4), ten (3x3,
+    not symmetric)."""
+    k = Knobs(seed + 500)
+    A, P = k.A, k.P
+
+    def scalar(t, x, y, z, m):
+        return (0.3 * A[0] * m.sin(x + P[0]) * m.cos(z + P[1])
+                + 0.1 * A[1] * m.cos(y + P[2]) + 0.05 * m.sin(0.8 * t + P[3]))
+
+    def vec3(t, x, y, z, m):
+        return [0.2 * A[2] * m.sin(x + P[4]) * m.cos(y + P[5])
+                + 0.05 * m.cos(z + P[6]),
+                0.15 * A[3] * m.cos(y + P[7]) * m.sin(z + P[8])
+                + 0.04 * m.sin(x + P[9]),
+                0.25 * A[4] * m.sin(z + P[10]) * m.sin(x + P[11])
+                + 0.03 * m.cos(y + P[12])]
+
+    def vec4(t, x, y, z, m):
+        v = vec3(t, x, y, z, m)
+        f = 1.0 + 0.2 * m.sin(0.6 * t + P[13])
+        return [0.3 * A[5] * m.cos(x + y + P[14]) * f
+                + 0.1 * m.sin(z + P[15])] + [
+            v[i] * (1.0 + 0.1 * (i + 1) * m.cos(0.5 * t + P[16 + i]))
+            for i in range(3)]
+
+    def ten(t, x, y, z, m):
+        out = [[None] * 3 for _ in range(3)]
+        n = 0
+        for i in range(3):
+            for j in range(3):
+                c = [x, y, z][(i + j) % 3]
+                d = [x, y, z][(i + 2 * j + 1) % 3]
+                out[i][j] = ((0.1 + 0.03 * n) * A[10 + n] * m.sin(
+                    c + P[20 + n]) * m.cos(d + P[30 + n])
+                    + 0.02 * (n + 1) * m.cos(x + y + z + P[40 + n]))
+                n += 1
+        return out
+    return scalar, vec3, vec4, ten
